@@ -95,6 +95,46 @@ static void cases(Harness &H, const std::string &d0, const Grid<S> &g, const Gri
   }
 }
 
+// operators of the SAME C++ type that carry DIFFERENT state (scalars, factor splines): anything that treats
+// "same type" as "same operator" (canonical argument orders, caches keyed by type) shows up here only
+template <size_t oa, size_t ob>
+static void state_cases(Harness &H, const std::string &d0, const Grid<S> &g, const std::vector<mpq_class> &pts, size_t n) {
+  auto W = windows(n);
+  auto v1 = mkspline_p<S, 1>(g, Win{0, n}, (n - 1) * 2 + 1), v2 = mkspline_p<S, 1>(g, Win{1, n - 1}, (n - 3) * 2 + 2);
+  RefPP rv1 = alpha(v1), rv2 = alpha(v2);
+  for (int kind = 0; kind < 3; kind++) {
+    static const char *kn[] = {"Dx1+2|Dx1+3", "V1|V2", "(2*X1)*Dx1|(5*X1)*Dx1"};
+    AstP a1 = kind == 0 ? aSum(aD(1), aConst(mq(2))) : kind == 1 ? aV(&rv1) : aProd(aScale(mq(2), aX(1)), aD(1));
+    AstP a2 = kind == 0 ? aSum(aD(1), aConst(mq(3))) : kind == 1 ? aV(&rv2) : aProd(aScale(mq(5), aX(1)), aD(1));
+    for (Win a : W)
+      for (Win b : W) {
+        size_t Ka = a.nint() * (oa + 1), Kb = b.nint() * (ob + 1);
+        if (!Ka || !Kb) continue;
+        for (int pv = 0; pv < 2; pv++) {
+          if (!H.take()) continue;
+          size_t pa = pv ? Ka + 2 : Ka + 1, pb = pv ? Kb + 1 : Kb + 2;
+          H.begin(d0 + ";same-type-different-state;" + kn[kind] + ";o" + std::to_string(oa) + "," + std::to_string(ob) + ";" + wstr(a) + ":" + pname(Ka, pa) + ";" + wstr(b) + ":" + pname(Kb, pb));
+          auto sa = mkspline_p<S, oa>(g, a, pa);
+          auto sb = mkspline_p<S, ob>(g, b, pb);
+          mpq_class ex = rinteg(rmul(ref_apply(*a1, alpha(sa)), ref_apply(*a2, alpha(sb))), pts), got, sw;
+          Outcome oc = attempt([&] {
+            if (kind == 0) { got = val(BilinearForm{Dx<1>{} + mki<S>(2), Dx<1>{} + mki<S>(3)}(sa, sb)); sw = val(BilinearForm{Dx<1>{} + mki<S>(3), Dx<1>{} + mki<S>(2)}(sb, sa)); }
+            else if (kind == 1) { got = val(BilinearForm{SplineOperator{v1}, SplineOperator{v2}}(sa, sb)); sw = val(BilinearForm{SplineOperator{v2}, SplineOperator{v1}}(sb, sa)); }
+            else { got = val(BilinearForm{(2 * X<1>{}) * Dx<1>{}, (5 * X<1>{}) * Dx<1>{}}(sa, sb)); sw = val(BilinearForm{(5 * X<1>{}) * Dx<1>{}, (2 * X<1>{}) * Dx<1>{}}(sb, sa)); }
+          });
+          if (oc.threw()) H.fail("bilinear:threw", oc.str());
+          else {
+            if (got != ex) H.fail("bilinear", std::string("same-type operators with different state: ") + kn[kind] + " gives " + got.get_str() + ", exact integral = " + ex.get_str());
+            if (sw != got) H.fail("bilinear:swap", "swapping the (operator, spline) pairs changes the value");
+          }
+          H.cls("same-type-different-state");
+          if (ex != 0) H.nontriv();
+          H.end();
+        }
+      }
+  }
+}
+
 template <size_t oa, size_t ob>
 static void per_orders(Harness &H, const std::string &d0, const Grid<S> &g, const Grid<S> &gcopy, const std::vector<mpq_class> &pts, size_t n) {
   for_idx(std::make_index_sequence<NOPS>{}, [&](auto II) {
@@ -104,9 +144,48 @@ static void per_orders(Harness &H, const std::string &d0, const Grid<S> &g, cons
   });
 }
 
+// long supports (size as an alphabet)
+static void large_cases(Harness &H) {
+  for (size_t n : std::vector<size_t>{34, 67}) {
+    auto pts = grid_family("uni", n);
+    for (size_t i = 0; i < n; i++) pts[i] = pts[i] * pts[i] / mpq_class((long)n) + pts[i] / 3 - 5;
+    Grid<S> g = mkgrid<S>(pts);
+    auto v = mkspline_p<S, 1>(g, Win{3, n - 4}, (n - 8) * 2 + 1);
+    RefPP rv = alpha(v);
+    std::vector<std::pair<Win, Win>> WW = {{Win{0, n}, Win{0, n}}, {Win{0, n - 1}, Win{1, n}}, {Win{2, n / 2}, Win{n / 2 - 3, n - 1}}, {Win{1, n - 1}, Win{n / 2, n / 2 + 2}}, {Win{n / 2, n / 2 + 3}, Win{0, n}}};
+    for (auto &ww : WW)
+      for (int kind = 0; kind < 3; kind++) {
+        if (!H.take()) continue;
+        static const char *kn[] = {"I|I", "X1|Dx1", "V*Dx1|X2"};
+        H.begin("large" + std::to_string(n) + ";" + kn[kind] + ";o2,1;" + wstr(ww.first) + ";" + wstr(ww.second));
+        auto sa = mkspline_p<S, 2>(g, ww.first, ww.first.nint() * 3 + 1);
+        auto sb = mkspline_p<S, 1>(g, ww.second, ww.second.nint() * 2 + 2);
+        AstP a1 = kind == 0 ? aI() : kind == 1 ? aX(1) : aProd(aV(&rv), aD(1));
+        AstP a2 = kind == 0 ? aI() : kind == 1 ? aD(1) : aX(2);
+        mpq_class ex = rinteg(rmul(ref_apply(*a1, alpha(sa)), ref_apply(*a2, alpha(sb))), pts), got, sw;
+        Outcome oc = attempt([&] {
+          if (kind == 0) { got = val(BilinearForm{}(sa, sb)); sw = val(BilinearForm{}(sb, sa)); }
+          else if (kind == 1) { got = val(BilinearForm{X<1>{}, Dx<1>{}}(sa, sb)); sw = val(BilinearForm{Dx<1>{}, X<1>{}}(sb, sa)); }
+          else { got = val(BilinearForm{SplineOperator{v} * Dx<1>{}, X<2>{}}(sa, sb)); sw = val(BilinearForm{X<2>{}, SplineOperator{v} * Dx<1>{}}(sb, sa)); }
+        });
+        if (oc.threw()) H.fail("bilinear:threw", oc.str());
+        else {
+          if (got != ex) H.fail("bilinear", std::string(kn[kind]) + " on long supports gives " + got.get_str() + ", exact integral = " + ex.get_str());
+          if (sw != got) H.fail("bilinear:swap", "swapping the (operator, spline) pairs changes the value");
+        }
+        H.cls("large");
+        if (ex != 0) H.nontriv();
+        H.end();
+      }
+  }
+}
+
 static void run(Harness &H) {
+#if VF_OB_MIN == 0
+  large_cases(H);
+#endif
   size_t n = 5;
-  std::vector<std::string> fams = H.thorough() ? std::vector<std::string>{"nonuni", "far"} : std::vector<std::string>{"nonuni"};
+  std::vector<std::string> fams = H.thorough() ? std::vector<std::string>{"nonuni", "far", "sym"} : std::vector<std::string>{"nonuni"};
   for (auto fam : fams) {
     auto pts = grid_family(fam, n);
     Grid<S> g = mkgrid<S>(pts), gcopy = mkgrid<S>(pts);
@@ -114,6 +193,7 @@ static void run(Harness &H) {
     for_idx(std::make_index_sequence<NOAS>{}, [&](auto A) {
       for_idx(std::make_index_sequence<VF_OB_MAX - VF_OB_MIN + 1>{}, [&](auto B) {
         per_orders<OAS[decltype(A)::value], decltype(B)::value + VF_OB_MIN>(H, d0, g, gcopy, pts, n);
+        state_cases<OAS[decltype(A)::value], decltype(B)::value + VF_OB_MIN>(H, d0, g, pts, n);
       });
     });
   }
